@@ -12,6 +12,7 @@ import (
 	"go/token"
 	"go/types"
 	"path/filepath"
+	"runtime"
 	"sort"
 	"strings"
 )
@@ -128,6 +129,23 @@ func init() {
 				if p := recover(); p != nil {
 					if e, ok := p.(exitPanic); ok {
 						code = int(e)
+						return
+					}
+					if e, ok := p.(targetPanic); ok {
+						// an unrecovered panic of the program: the Go runtime prints it with the
+						// goroutine dump on stderr and exits with status 2
+						msg := "panic: " + fr.i.panicText(e.v) + "\n\ngoroutine 1 [running]:\n"
+						fr.i.os().stderr = append(fr.i.os().stderr, msg...)
+						fr.i.event("write:stderr", msg)
+						fr.i.panicStack = nil
+						code = 2
+						return
+					}
+					if e, ok := p.(runtime.Error); ok && !strings.Contains(e.Error(), "interp.") {
+						msg := "panic: " + e.Error() + "\n\ngoroutine 1 [running]:\n"
+						fr.i.os().stderr = append(fr.i.os().stderr, msg...)
+						fr.i.panicStack = nil
+						code = 2
 						return
 					}
 					panic(p)
